@@ -38,6 +38,25 @@ fn main() {
                 i += 1;
                 replay = Some(PathBuf::from(args.get(i).unwrap_or_else(|| usage())));
             }
+            "--from-bytes" => {
+                // debugging aid: decode a fuzzer input into the property's case and judge it
+                i += 1;
+                let data = std::fs::read(args.get(i).unwrap_or_else(|| usage())).expect("read input");
+                pyo3::prepare_freethreaded_python();
+                install_panic_hook();
+                let known = rlverif::engine::load_known(&id);
+                match props::fuzz_dispatch(&id, &known, &data) {
+                    Some(rlverif::engine::FuzzOutcome::Violation { replay, failure }) => {
+                        println!("VIOLATION property={} replay={}\n  clause: {}\n  detail: {}", id, replay.display(), failure.clause, failure.detail);
+                        std::process::exit(1);
+                    }
+                    Some(_) => {
+                        println!("no violation");
+                        std::process::exit(0);
+                    }
+                    None => usage(),
+                }
+            }
             "--seed" => {
                 i += 1;
                 seed = args.get(i).and_then(|s| s.parse().ok()).unwrap_or_else(|| usage());
